@@ -1,0 +1,9 @@
+//go:build !verif
+// +build !verif
+
+package jet
+
+// Verification hooks (see verif_on.go). Without the "verif" build tag they compile to nothing.
+const verifOn = false
+
+func vt(st *Runtime, ev string, args ...interface{}) {}
